@@ -366,6 +366,68 @@ fn part_containers(ctx: &Arc<Ctx>) {
 		ct::cleanup(&w);
 		ctxr.nontrivial(fnv_str(&format!("{di}{cont:?}{comp}")));
 	});
+	// PMTiles: tile counts just below the point where the root directory no longer fits its 16 KiB area - the
+	// metadata is stored right behind that area
+	{
+		use crate::codec;
+		let make = |n: usize| -> TileMap {
+			let mut m = TileMap::new();
+			for i in 0..n {
+				let len = 1 + ((i * 7919) % 251);
+				let mut v = vec![0u8; len];
+				v[0] = (i % 251) as u8;
+				if len > 1 {
+					v[1] = (i / 251) as u8;
+				}
+				m.insert((10, (i as u32) % 256, (i as u32) / 256), v);
+			}
+			m
+		};
+		let doc = r#"{"tilejson":"3.0.0","name":"metadata behind the root directory","attribution":"kept","description":"d"}"#;
+		let rt = tokio::runtime::Builder::new_current_thread().build().unwrap();
+		let write = |n: usize| -> Option<Vec<u8>> {
+			let mut src = MemSource::new("m", make(n), TileFormat::PNG, TileCompression::Uncompressed).with_tilejson(TileJSON::try_from(doc).ok()?).with_fast_stream();
+			match ct::write(&rt, Cont::Pmtiles, &mut src, &work.0, "sweep") {
+				Ok(ct::Written::Bytes(b)) => Some(b),
+				_ => None,
+			}
+		};
+		let leaves = |n: usize| write(n).and_then(|b| codec::pm_decode(&b).ok()).map(|d| d.leaf_levels >= 1).unwrap_or(true);
+		let (mut lo, mut hi) = (256usize, 16384usize);
+		while lo + 1 < hi {
+			let mid = (lo + hi) / 2;
+			if leaves(mid) {
+				hi = mid;
+			} else {
+				lo = mid;
+			}
+		}
+		let switch = hi;
+		let ns: Vec<usize> = (switch.saturating_sub(80)..=switch + 2).collect();
+		let nsr = &ns;
+		let wp = work.0.clone();
+		par_for(ns.len(), |i| {
+			let n = nsr[i];
+			let rt = tokio::runtime::Builder::new_current_thread().build().unwrap();
+			let mut src = MemSource::new("m", make(n), TileFormat::PNG, TileCompression::Uncompressed).with_tilejson(TileJSON::try_from(doc).unwrap()).with_fast_stream();
+			ctx.eval();
+			let case = json!({"kind": "pmtiles-root-limit", "tiles": n, "switch": switch});
+			match ct::write(&rt, Cont::Pmtiles, &mut src, &wp, &format!("sw{i}")) {
+				Ok(w) => match ct::open(&rt, Cont::Pmtiles, &w) {
+					Ok(r) => {
+						let got: Value = serde_json::from_str(&r.get_tilejson().as_string()).unwrap_or(Value::Null);
+						if got["name"] != "metadata behind the root directory" || got["attribution"] != "kept" {
+							ctx.violation("pmtiles: returned TileJSON differs from the one given", &format!("{n} tiles (root/leaf switch at {switch}): returned {got}"), case);
+						}
+					}
+					Err(e) => ctx.violation(&format!("pmtiles: container with a TileJSON document cannot be opened: {}", super::c01::norm_msg(&e)), &format!("{n} tiles (root/leaf switch at {switch}): {e}"), case),
+				},
+				Err(e) => ctx.violation(&format!("pmtiles: writer fails with a TileJSON document: {}", super::c01::norm_msg(&e)), &format!("{n} tiles: {e}"), case),
+			}
+			ctx.nontrivial(fnv_str(&format!("pmroot{n}")));
+		});
+		ctx.outcome_n(&format!("pmtiles tile counts around the root-directory limit (switch at {switch})"), ns.len() as u64);
+	}
 	ctx.outcome_n("TileJSON documents x containers x compressions", jobs.len() as u64);
 	ctx.state(jobs.len() as u64);
 	ctx.transition(jobs.len() as u64);
@@ -375,7 +437,7 @@ fn part_containers(ctx: &Arc<Ctx>) {
 pub fn run(ctx: Arc<Ctx>) {
 	ctx.rule(
 		"values: all 1,112,064 one-character strings; all strings of length <= 3 over 20 escape-class characters (also as object keys); 36 numbers incl. -0, 1e21, 5e-324, max double, 2^53+-1; all nested values of depth <= 2 and width <= 2 over 7 leaves and three keys, depth 3 over every 401st (quick) / 7th (thorough) depth-2 value; each through stringify -> own parser (equal value) and stringify -> serde_json (same value). \
-		 TileJSON: 7 documents (incl. lists that repeat an entry) x {versatiles, pmtiles, tar, directory} x 3 compressions written by the real writers; stored metadata (independently decoded) and the re-opened reader's TileJSON must equal the given document, zoom range and bounds only narrowed, also when the reader's tile compression label is overridden before / after the first access; served tiles.json checked through the real server. non-trivial = distinct values / documents",
+		 TileJSON: 7 documents (incl. lists that repeat an entry) x {versatiles, pmtiles, tar, directory} x 3 compressions written by the real writers; PMTiles also at 83 tile counts around the point where the root directory fills its 16 KiB area (the metadata lies right behind it); stored metadata (independently decoded) and the re-opened reader's TileJSON must equal the given document, zoom range and bounds only narrowed, also when the reader's tile compression label is overridden before / after the first access; served tiles.json checked through the real server. non-trivial = distinct values / documents",
 	);
 	ctx.assume("serde_json is the 'standard JSON parser'; numbers are compared as f64");
 	part_values(&ctx);
